@@ -20,6 +20,7 @@ THEOREMS = {
         "Dawgs.C13.Props.wrapper_deadlock_free_refuted_abba",
         "Dawgs.C13.Props.wrapper_deadlock_free_partial",
         "Dawgs.C13.Props.c13_seq_fixed",
+        "Dawgs.C13.Props.c13_seq_current_refuted",
         "Dawgs.C13.Props.c13_full_refuted",
     ],
 }
